@@ -43,7 +43,21 @@ was found is in `AsFound.lean` (same state, same API functions, only the dispatc
   timer heap and the deferred queue are not part of this state (C02 / C01 are about them): WHICH
   timers are due and which tasks are in the batch is an oracle input of the step, the theorems hold
   for every such input; `arm k` / `post k` (enable the one-shot timer of callable `k`, `runNext` it)
-  therefore change nothing here — the trace acceptor (Driver/C03.lean) keeps the two queues.
+  therefore change nothing here — the trace acceptor (Driver/C03.lean) keeps the two queues;
+* round 4 — **kernel readiness with hang-up and error conditions**: besides data to read / room to write /
+  urgent data a descriptor has the kernel conditions `hup` (EPOLLHUP: peer end of a socket pair closed, last
+  writer of a pipe gone, refused connection) and `err` (EPOLLERR: pending socket error — the peer closed with
+  our data unread, a refused `connect()` — or no reader left on a pipe).  `kindOf` is the harness's descriptor
+  table (6 read end of a pipe, 7 write end of a pipe, 8 non-blocking TCP socket whose `connect()` was refused,
+  anything else one end of an AF_UNIX stream socket pair); `Act.cond` are the run-time events that produce the
+  conditions; `reportOf` says what each engine hands to `OnEventCallback` for them (epoll: requested ∩ ready,
+  plus HUP → read and ERR → except whether requested or not; select: a descriptor comes back in the read set for
+  data, hang-up or error, in the write set for room or error, in the except set for urgent data only).
+  `Mask.lean` proves that `reportOf` is the kernel contract composed with the tables regenerated from the source;
+* round 4 — **a failing `EPOLL_CTL_ADD`** (ENOMEM / ENOSPC / EPERM, injected): `Act.enableF` is `enable()` whose
+  ADD the kernel refuses.  The code ignores the result of `epoll_ctl`, so the event reports enabled while the
+  kernel never reports the descriptor — and every later subscriber of the descriptor issues a MOD that fails
+  with ENOENT — until all are disabled and one is enabled again.  EEXIST on ADD cannot happen (`RecOk.kor`).
 -/
 namespace Tbox.C03
 
@@ -63,6 +77,8 @@ inductive Act where
   | kill (f : Nat)                           -- close(f), the number stays unused until a later `close f` reopens it
   | arm (k : Nat)                            -- enable the one-shot timer that runs callable k (due in the next pass)
   | post (k : Nat)                           -- loop->runNext(callable k)
+  | cond (f c : Nat)                         -- a run-time kernel condition on f: c = 0 the peer end is closed, c = 1 the peer shuts down its write side
+  | enableF (e : Nat)                        -- e->enable() while the kernel refuses the EPOLL_CTL_ADD it issues (ENOMEM/ENOSPC/EPERM)
 deriving DecidableEq, Repr
 
 structure Ev where
@@ -116,15 +132,23 @@ inductive Out where
   | bad (b : Bad)
 deriving Repr, DecidableEq
 
+/-- the harness's descriptor table: 1 = read end of a pipe, 2 = write end of a pipe, 3 = non-blocking TCP socket
+whose `connect()` to a bound, not listening loopback port was refused, 0 = one end of an AF_UNIX stream socket pair -/
+def kindOf (f : Nat) : Nat := if f = 6 then 1 else if f = 7 then 2 else if f = 8 then 3 else 0
+
 structure State where
   evs      : Nat → Ev := fun _ => {}
   nEv      : Nat := 0
   recs     : Nat → Option Rec := fun _ => none
   kern     : Nat → Nat := fun _ => 0
   gen      : Nat → Nat := fun _ => 0
-  readable : Nat → Bool := fun _ => false
-  writable : Nat → Bool := fun _ => true
+  readable : Nat → Bool := fun f => kindOf f == 3   -- POLLIN (data, end-of-file after the peer shut down)
+  writable : Nat → Bool := fun f => kindOf f != 1   -- POLLOUT
   urgent   : Nat → Bool := fun _ => false   -- out-of-band data pending (select: exceptfds, epoll: EPOLLPRI)
+  err      : Nat → Bool := fun f => kindOf f == 3   -- POLLERR: pending socket error / pipe without reader
+  hup      : Nat → Bool := fun f => kindOf f == 3   -- POLLHUP: both directions shut down / pipe without writer
+  eof      : Nat → Bool := fun f => kindOf f == 3   -- POLLIN is permanent (receive side shut down): the harness can neither feed nor drain
+  gone     : Nat → Bool := fun f => kindOf f == 3   -- the peer end no longer exists: the harness can change nothing through it
   isOpen   : Nat → Bool := fun _ => true    -- the descriptor number currently names an open file
   breach   : Bool := false                  -- ghost: some descriptor was closed while an event object still referred to it
   serial   : Nat := 0
@@ -249,19 +273,71 @@ or leaving a descriptor number closed, is recorded in the ghost flag `breach` (t
 def closeFd (s : State) (f : Nat) (reopen : Bool) : State × Bool :=
   if !reopen && !s.isOpen f then (s, false)
   else ({ s with gen := upd s.gen f (s.gen f + 1), kern := upd s.kern f 0,
-                 readable := fun i => if i = f then false else s.readable i,
-                 writable := fun i => if i = f then reopen else s.writable i,
+                 readable := fun i => if i = f then (reopen && kindOf f == 3) else s.readable i,
+                 writable := fun i => if i = f then (reopen && kindOf f != 1) else s.writable i,
                  urgent := fun i => if i = f then false else s.urgent i,
+                 err := fun i => if i = f then (reopen && kindOf f == 3) else s.err i,
+                 hup := fun i => if i = f then (reopen && kindOf f == 3) else s.hup i,
+                 eof := fun i => if i = f then (reopen && kindOf f == 3) else s.eof i,
+                 gone := fun i => if i = f then (reopen && kindOf f == 3) else s.gone i,
                  isOpen := fun i => if i = f then reopen else s.isOpen i,
                  breach := s.breach || (s.recs f).isSome || !reopen }, true)
 
-/-- readiness set up by the harness through the peer end; nothing happens on a closed descriptor.
+/-- readiness set up by the harness through the peer end; nothing happens on a closed descriptor, nor where the
+harness has no means left (`blocked`: the peer end is gone, the receive side is shut down, the kind has no such condition).
 Draining (`rd = some false`) also discards pending out-of-band data (Linux AF_UNIX). -/
+def blocked (s : State) (f : Nat) (rd wr : Option Bool) (ob : Bool) : Bool :=
+  !s.isOpen f
+  || (rd == some true && (s.eof f || s.gone f || kindOf f == 2))    -- the peer writes a byte: needs a peer that may still write
+  || (rd == some false && (s.eof f || kindOf f == 2))               -- drain: end-of-file cannot be drained
+  || (ob && (s.eof f || s.gone f || kindOf f != 0))                 -- out-of-band data exists on the socket pairs only
+  || (wr.isSome && (s.gone f || kindOf f == 1))                     -- fill / let the peer drain: needs a peer
+
 def setReady (s : State) (f : Nat) (rd wr : Option Bool) (ob : Bool) : State × Bool :=
-  if !s.isOpen f then (s, true)
+  if blocked s f rd wr ob then (s, true)
   else ({ s with readable := fun i => if i = f then (rd.getD (s.readable f) || ob) else s.readable i,
                  writable := fun i => if i = f then wr.getD (s.writable f) else s.writable i,
                  urgent := fun i => if i = f then (ob || (s.urgent f && rd != some false)) else s.urgent i }, true)
+
+/-- overwrite the kernel conditions of descriptor `f` -/
+def setFlags (s : State) (f : Nat) (rd wr er hu eo go : Bool) : State :=
+  { s with readable := fun i => if i = f then rd else s.readable i,
+           writable := fun i => if i = f then wr else s.writable i,
+           err := fun i => if i = f then er else s.err i,
+           hup := fun i => if i = f then hu else s.hup i,
+           eof := fun i => if i = f then eo else s.eof i,
+           gone := fun i => if i = f then go else s.gone i }
+
+/-- **kernel conditions produced at run time** (measured on this kernel, re-checked by every run through the `K` lines).
+`c = 0`, the peer end is closed — socket pair: `sk_shutdown = SHUTDOWN_MASK` gives POLLHUP and a permanent POLLIN, the
+send queue is purged so POLLOUT, and POLLERR (ECONNRESET) iff the peer had not read everything we sent (= our send
+buffer was full: the harness only ever fills it completely or lets the peer drain it completely); read end of a pipe:
+POLLHUP, data stays; write end of a pipe: POLLERR, room stays.  `c = 1`, the peer shuts down its write side (socket pair
+only): permanent POLLIN, no POLLHUP.  The result says whether the harness had anything to do. -/
+def condFd (s : State) (f c : Nat) : State × Bool :=
+  if !s.isOpen f || s.gone f then (s, false)
+  else if c = 0 then
+    if kindOf f = 0 then (setFlags s f true true (s.err f || !s.writable f) true true true, true)
+    else if kindOf f = 1 then (setFlags s f (s.readable f) (s.writable f) (s.err f) true (s.eof f) true, true)
+    else (setFlags s f (s.readable f) (s.writable f) true (s.hup f) (s.eof f) true, true)
+  else if c = 1 then
+    if kindOf f = 0 && !s.eof f then (setFlags s f true (s.writable f) (s.err f) (s.hup f) true (s.gone f), true)
+    else (s, false)
+  else (s, false)
+
+/-- the kernel will refuse an `EPOLL_CTL_ADD` on `f`; the fault injector is in use (ghost) -/
+def refuseAdd (s : State) (f : Nat) : State :=
+  { s with isOpen := fun i => if i = f then false else s.isOpen i, breach := true }
+def restoreOpen (s0 s : State) : State := { s with isOpen := s0.isOpen }
+
+/-- **`enable()` while the kernel refuses the `EPOLL_CTL_ADD` it issues** (ENOMEM, ENOSPC, EPERM: injected by the
+interposer for exactly this call).  `reloadEpoll` ignores the result of `epoll_ctl`, so everything happens as in
+`enableEv` except that the kernel table keeps its entry: written as `enableEv` in a state in which the kernel treats the
+descriptor like a closed one — the only use `enableEv` makes of `isOpen` is the success of that ADD (MOD and DEL are
+not touched by the injection).  The ghost flag `breach` records that the fault injector was used: from here on kernel
+and loop may disagree. -/
+def enableEvF (s : State) (e : Nat) : State × Bool :=
+  (restoreOpen s (enableEv (refuseAdd s (s.evs e).fd) e).1, (enableEv (refuseAdd s (s.evs e).fd) e).2)
 
 def act (s : State) : Act → State × Bool
   | .init e f m o => initEv s e f m o
@@ -275,6 +351,8 @@ def act (s : State) : Act → State × Bool
   | .oob f => setReady s f none none true
   | .arm _ => (s, true)
   | .post _ => (s, true)
+  | .cond f c => condFd s f c
+  | .enableF e => enableEvF s e
 
 def runScript (s : State) : List Act → State
   | [] => s
@@ -363,11 +441,29 @@ def sortedFds : List (Nat × Nat) → Bool
   | a :: b :: rest => a.1 < b.1 && sortedFds (b :: rest)
   | _ => true
 
-/-- the ready list the kernel may hand out: distinct descriptors, each with the non-empty part
-of its interest that is actually ready; select serves descriptors in ascending order -/
+/-- **what the wait reports** for a descriptor watched with tbox interest `m` whose plain readiness is `a` (data to
+read 1, room to write 2, urgent data 4) under the kernel conditions `hup` / `err`, AS TBOX BITS, i.e. after the engine's own
+translation (`OnEventCallback`).  epoll: the kernel reports requested ∩ ready plus EPOLLHUP and EPOLLERR whether requested or
+not; the engine turns HUP into read and ERR into except.  select: the kernel puts a descriptor of the read set back for
+data, hang-up or error, of the write set for room or error, of the except set for urgent data only.
+`C03_report_is_kernel_then_tables` (Mask.lean) derives both lines from that contract and the regenerated tables. -/
+def reportOf (be : Backend) (m a : Nat) (hup err : Bool) : Nat :=
+  (m &&& a) ||| match be with
+    | .epoll => if m = 0 then 0 else (if hup then 1 else 0) ||| (if err then 4 else 0)
+    | .select => (if hasBit m 1 && (hup || err) then 1 else 0) ||| (if hasBit m 2 && err then 2 else 0)
+
+/-- … for descriptor `f` in state `s` -/
+def reported (be : Backend) (s : State) (f : Nat) : Nat :=
+  reportOf be (interest be s f) (actualMask s f) (s.isOpen f && s.hup f) (s.isOpen f && s.err f)
+
+/-- no hang-up / error condition on `f`: the engines then report interest ∩ readiness, and the same -/
+def quietFd (s : State) (f : Nat) : Bool := !(s.isOpen f && s.hup f) && !(s.isOpen f && s.err f)
+
+/-- the ready list the kernel may hand out: distinct descriptors, each with the non-empty mask the engine
+reports for it (`reported`); select serves descriptors in ascending order -/
 def validReady (be : Backend) (s : State) (r : List (Nat × Nat)) : Bool :=
   (r.map (·.1)).Nodup
-  && r.all (fun fm => fm.2 != 0 && fm.2 == interest be s fm.1 &&& actualMask s fm.1)
+  && r.all (fun fm => fm.2 != 0 && fm.2 == reported be s fm.1)
   && (be == .epoll || sortedFds r)
 
 inductive Step where
